@@ -2,8 +2,8 @@ SPECIFICATION Spec
 VIEW view
 CONSTANTS
   OffsMod = 65536
-  Atoms <- AtomsBad
-  Heads <- HeadsBad
+  Atoms <- AtomsSel
+  Sel = "bad"
   MaxLen = 40
   Cfgs <- CfgsFL
   Junk = 34
